@@ -38,8 +38,6 @@ func encAdd(k *testKey, comment string, constraints []byte) []byte {
 	switch k.algo {
 	case "ssh-rsa":
 		p := rsaParts(k)
-		pk := k.priv.(interface{ Public() any })
-		_ = pk
 		if !k.isCert {
 			w.mpint(p.n)
 			w.mpint(p.e)
@@ -152,24 +150,24 @@ func (f *fillerReader) Read(p []byte) (int, error) {
 // request types defined by the draft / PROTOCOL.agent that take part in the
 // reply-type check; anything else must be answered with SSH_AGENT_FAILURE.
 var replyTypes = map[byte][]byte{
-	1:  {2, 5},       // v1 identities
-	9:  {6, 5},       // v1 remove all
-	11: {12, 5},      // request identities
-	13: {14, 5},      // sign
-	17: {6, 5},       // add
-	18: {6, 5},       // remove
-	19: {6, 5},       // remove all
-	22: {6, 5},       // lock
-	23: {6, 5},       // unlock
-	25: {6, 5},       // add constrained
-	27: {5, 6, 28},   // extension (the plain keyring has none)
+	1:  {2, 5},     // v1 identities
+	9:  {6, 5},     // v1 remove all
+	11: {12, 5},    // request identities
+	13: {14, 5},    // sign
+	17: {6, 5},     // add
+	18: {6, 5},     // remove
+	19: {6, 5},     // remove all
+	22: {6, 5},     // lock
+	23: {6, 5},     // unlock
+	25: {6, 5},     // add constrained
+	27: {5, 6, 28}, // extension (the plain keyring has none)
 }
 
 type fuzzState struct {
-	kr      agent.ExtendedAgent
-	loaded  []*testKey
-	locked  bool
-	secret  []byte
+	kr     agent.ExtendedAgent
+	loaded []*testKey
+	locked bool
+	secret []byte
 }
 
 func newFuzzState(r *mrand.Rand, fast []*testKey) *fuzzState {
@@ -337,7 +335,7 @@ func inconsistentAdd(r *mrand.Rand, pool []*testKey) []byte {
 		w.sstr("c")
 	default: // ECDSA certificate carrying an RSA certificate blob, DSA junk
 		w.sstr(mon.Pick(r, []string{"ecdsa-sha2-nistp256-cert-v01@openssh.com", "ssh-dss-cert-v01@openssh.com", "ssh-rsa-cert-v01@openssh.com", "ssh-dss"}))
-		w.str(mon.Pick(pool2certs(pool), keyByNm["rsa1024-cert"]).blob)
+		w.str(mon.Pick(r, pool2certs(pool)).blob)
 		w.mpint(new(big.Int).SetBytes(mon.Bytes(r, 1+r.IntN(40))))
 		w.mpint(new(big.Int).SetBytes(mon.Bytes(r, 1+r.IntN(40))))
 		w.mpint(new(big.Int).SetBytes(mon.Bytes(r, 1+r.IntN(40))))
